@@ -341,9 +341,14 @@ def run(ctx):
             ctx.boundary_skipped += 1
         elif detail is not None:
             ctx.disagree('C02 ' + stream, {'case': case, 'detail': detail})
+    from harness.props import c02_ties
+    c02_ties.run_ties(ctx, {'tie-filterm': ctx.scale(40, 400)})
 
 
 def replay(ctx, case):
+    if str(case.get('family', '')).startswith('tie-'):
+        from harness.props import c02_ties
+        return c02_ties.replay_case(ctx, case)
     bad, obs = oracle_case(case, thorough=True)
     for key, what in bad:
         print('  fails:', key, '-', what)
